@@ -30,6 +30,7 @@ EXPLANATION = (
     "constructor's signature; a miss is a definite AttributeError/TypeError for all operands. R2 interprets the "
     "indexer methods over the abstract domain of array ranks with numpy's basic/advanced indexing rules for the two "
     "documented index kinds. R3/R5 are dominance and constant-folding rules on the guards. R4 is eq-covers-slots."
+    " Later rounds: R6-R9 (no aliasing through non-copying constructors, symbolic axis typing of the indexers, derived containers keep their state, iterators restart); R10 (edges of a bin selection = left edges + last right edge); R11 (constructor shape witnesses, frozen from the pinned tree); R12 (operators combine members with the operation they are named after); R13 (size properties read a non-bin axis); R14 (CorrFunc members are checked against dd with require=True); R3/R4 also demand that partial verdicts are joined by `and`, that guards raise for DIFFERENT operands, that overrides honour their base class's verdict, and that __eq__ is reflexive (also in its loop form)."
 )
 ASSUMPTIONS = [
     "numpy indexing: a slice keeps an axis, an integer drops it, all advanced (list/array) indices are broadcast together into ONE axis",
